@@ -76,6 +76,12 @@ pub enum Signal {
     Zero,
     /// the Noise sequence of channel `ch + offset` (single-channel twins)
     NoiseCh(usize),
+    /// the Noise sequence scaled by 2^-26 (peak 1.5e-8): a valid, very quiet signal; everything
+    /// the resamplers do is linear, so nothing may depend on the absolute level
+    NoiseQuiet,
+    /// the Noise sequence of channel `ch + offset`, with NaN in every 7th sample of the LAST
+    /// channel `last` (only used on multi-channel objects: the other channels must not notice)
+    NoisePoisonLast(usize),
 }
 
 pub fn splitmix(mut x: u64) -> u64 {
@@ -96,6 +102,14 @@ impl Signal {
             }
             Signal::Zero => 0.0,
             Signal::NoiseCh(off) => Signal::Noise.at(ch + off, n),
+            Signal::NoiseQuiet => Signal::Noise.at(ch, n) * (2.0f64).powi(-26),
+            Signal::NoisePoisonLast(last) => {
+                if ch == *last && n % 7 == 3 {
+                    f64::NAN
+                } else {
+                    Signal::Noise.at(ch, n)
+                }
+            }
         }
     }
 }
